@@ -78,7 +78,12 @@ func (p *Proxy) Fetch(ctx context.Context, target ocispec.Descriptor) (io.ReadCl
 		pushErr = p.Cache.Push(ctx, target, pr)
 		if pushErr != nil {
 			pr.CloseWithError(pushErr)
+			return
 		}
+		// the cache may stop reading before the pipe is closed (a size-limited
+		// cache reads at most target.Size bytes): keep draining so that the
+		// reader of the returned content is never blocked on the pipe.
+		io.Copy(io.Discard, pr)
 	}()
 	closer := ioutil.CloserFunc(func() error {
 		rcErr := rc.Close()
